@@ -34,7 +34,7 @@ typedef struct ro_ctx {
     /* recording emitter */
     flatcc_emitter_t E;
     ro_emit_rec_t *recs; size_t nrecs, caprecs;
-    long long fe; int fe_rep;            /* emit failure countdown: <0 never, 0 next call fails */
+    long long fe; int fe_rep; int fe_code;   /* emit failure countdown: <0 never, 0 next call fails; value the failing call returns (any non-zero) */
     long long emit_calls;
     /* allocator wrapper */
     long long fa; int fa_rep;
@@ -52,7 +52,7 @@ static int ro_emit(void *ctxp, const flatcc_iovec_t *iov, int iov_count, flatbuf
 {
     ro_ctx_t *c = (ro_ctx_t *)ctxp; int i; size_t k = 0; ro_emit_rec_t *r;
     ++c->emit_calls;
-    if (c->fe == 0) { if (!c->fe_rep) c->fe = -1; return -1; }
+    if (c->fe == 0) { if (!c->fe_rep) c->fe = -1; return c->fe_code ? c->fe_code : -1; }
     if (c->fe > 0) --c->fe;
     if (c->nrecs == c->caprecs) { c->caprecs = c->caprecs ? c->caprecs * 2 : 64; c->recs = (ro_emit_rec_t *)realloc(c->recs, c->caprecs * sizeof(*c->recs)); }
     r = &c->recs[c->nrecs++];
@@ -206,7 +206,7 @@ static int ro_op(ro_ctx_t *c, size_t i, char *tok)
         printf("%zu/%zu ", nv, nd); return 0;
     }
     if (IS("FA")) { c->fa = atoll(A(1)); c->fa_rep = atoi(A(2)); printf("ok "); return 0; }
-    if (IS("FE")) { c->fe = atoll(A(1)); c->fe_rep = atoi(A(2)); printf("ok "); return 0; }
+    if (IS("FE")) { c->fe = atoll(A(1)); c->fe_rep = atoi(A(2)); c->fe_code = nf > 3 ? atoi(A(3)) : -1; printf("ok "); return 0; }
     if (IS("sb")) { uint32_t id = (uint32_t)strtoul(A(1), 0, 10); r = flatcc_builder_start_buffer(B, id ? (const char *)&id : 0, (uint16_t)atoi(A(2)), (flatcc_builder_buffer_flags_t)atoi(A(3))); }
     else if (IS("eb")) r = flatcc_builder_end_buffer(B, (flatcc_builder_ref_t)ro_ref(c, A(1)));
     else if (IS("cb")) { uint32_t id = (uint32_t)strtoul(A(1), 0, 10); r = flatcc_builder_create_buffer(B, id ? (const char *)&id : 0, (uint16_t)atoi(A(2)), (flatcc_builder_ref_t)ro_ref(c, A(3)), (uint16_t)atoi(A(4)), (flatcc_builder_buffer_flags_t)atoi(A(5))); }
